@@ -83,13 +83,15 @@ def store_guards(an, sy, bb, stored=None):
     """boolean atoms dominating a store that mention the stored-to array (the duplicate guard) or the stored
     collection itself (the non-empty guard)"""
     out = []
+    from ..sym import atom_str
+    import re as _re
+    ats = []
     for (d, rel, vals) in an.atoms_at(bb):
-        for a in sy.atoms(d, rel, vals):
-            from ..sym import atom_str
-            s = atom_str(a)
-            import re as _re
-            if _re.search(r"var<\[.*\]>\[", s) or (stored and stored in s):
-                out.append(s)
+        ats += sy.atoms(d, rel, vals)
+    for a in (accept.simplify(ats, sy.sym_box) or []):
+        s = atom_str(a)
+        if _re.search(r"var<\[.*\]>\[", s) or (stored and stored in s):
+            out.append(s)
     return out
 
 
